@@ -157,9 +157,11 @@ class AgentLeg:
         w.mut = Mut('mut', m, priority=0)
         m.systems.add_system(w.mut)
 
+        w.tail_runs = 0
+
         class Tail(Core.System):
             def execute(self_):
-                pass
+                w.tail_runs += 1
         m.systems.add_system(Tail('tail', m, priority=-2))      # something that runs after a default-priority collector
         if self.late:
             class Dummy(Core.System):
@@ -287,6 +289,9 @@ class AgentLeg:
             elif w.nested:
                 raise Violation('the priority-0 system did not run in this timestep')
             w.ref2.append({'z': 99})
+        if w.tail_runs != w.t:
+            raise Violation(f'{op}: the system queued behind the collector (priority -2) ran {w.tail_runs} times in {w.t} '
+                            f'timesteps (config {self.config})', expected=w.t, observed=w.tail_runs)
         if w.col2.records != w.ref2:
             raise Violation(f'{op}: a collector of another model (same collector id) holds foreign records',
                             expected=w.ref2[-2:], observed=w.col2.records[-2:])
@@ -449,6 +454,12 @@ def file_fault_case(case):
         shutil.rmtree(tmp, ignore_errors=True)
 
 
+def _rec(t, i, length=None):
+    """One record of the file leg; padded to an exact length when the case asks for very long records."""
+    r = f't{t}r{i};'
+    return r if not length else r + 'x' * (length - len(r) - 1) + '|'
+
+
 def file_case(case):
     if 'fail_t' in case:
         return file_fault_case(case)
@@ -464,7 +475,7 @@ def file_case(case):
             def collect(self):
                 t = self.model.systems.timestep
                 for i in range(script[t]):
-                    self.records.append(f't{t}r{i};')
+                    self.records.append(_rec(t, i, case.get('record_len')))
 
         if case.get('own_writer'):
             # the collector overrides write_records() - the documented place to change the output format - and does
@@ -488,7 +499,7 @@ def file_case(case):
         states = []
         for t in range(len(counts)):
             if scheduled(t, win):
-                new = [f't{t}r{i};' for i in range(counts[t])]
+                new = [_rec(t, i, case.get('record_len')) for i in range(counts[t])]
                 collected += new
                 held += new
                 ncoll += 1
@@ -581,6 +592,10 @@ def run(ctx):
         for wc in (0, 1, 2):
             for fail_t in range(6):
                 cases.append({'leg': 'file', 'counts': counts, 'write_count': wc, 'win': 0, 'fail_t': fail_t})
+    # very long records, at and around multiples of the I/O buffer size (8192): 3 x 8192 = 24576, 49152, 73728 characters
+    for L in (24576, 49152, 49151, 49153, 73728, 8192, 16384):
+        for wc in (0, 1):
+            cases.append({'leg': 'file', 'counts': [1, 2, 1], 'write_count': wc, 'win': 0, 'record_len': L})
     # large backlogs: many records per collection, flush sizes at and around powers of two
     for per in (8, 16, 64, 63, 65):
         for wc in (0, 1, 3, 7):
